@@ -428,7 +428,85 @@ where
     (cen, te.count() as u64, te.attempted)
 }
 
+/// Translation into BIP389 multipath keys: the mapped keys of one script are legal together only if
+/// their path tuples have one length; every wrapper refuses the translation otherwise (and accepts it
+/// when they agree).
+fn multipath_translation(rep: &Report, cen: &mut Census) {
+    use miniscript::DescriptorPublicKey as Dpk;
+    use std::str::FromStr;
+    let secp = bitcoin::secp256k1::Secp256k1::new();
+    let xpubs: Vec<String> = (0..4u8)
+        .map(|i| {
+            let m = bitcoin::bip32::Xpriv::new_master(bitcoin::Network::Bitcoin, &[60 + i; 32]).unwrap();
+            bitcoin::bip32::Xpub::from_priv(&secp, &m).to_string()
+        })
+        .collect();
+    struct ToMp<'a> {
+        xpubs: &'a [String],
+        lens: [usize; 4],
+    }
+    impl<'a> Translator<String> for ToMp<'a> {
+        type TargetPk = miniscript::DescriptorPublicKey;
+        type Error = String;
+        fn pk(&mut self, pk: &String) -> Result<Self::TargetPk, String> {
+            let i: usize = pk.trim_start_matches('K').parse::<usize>().map_err(|e| e.to_string())? % 4;
+            let step = match self.lens[i] {
+                1 => "/0/*".to_string(),
+                n => format!("/<{}>/*", (0..n).map(|j| j.to_string()).collect::<Vec<_>>().join(";")),
+            };
+            Dpk::from_str(&format!("{}{}", self.xpubs[i], step)).map_err(|e| e.to_string())
+        }
+        fn sha256(&mut self, h: &String) -> Result<sha256::Hash, String> { Ok(bitcoin::hashes::Hash::from_slice(&hash_bytes('s', h)).unwrap()) }
+        fn hash256(&mut self, h: &String) -> Result<miniscript::hash256::Hash, String> { Ok(bitcoin::hashes::Hash::from_slice(&hash_bytes('d', h)).unwrap()) }
+        fn ripemd160(&mut self, h: &String) -> Result<ripemd160::Hash, String> { Ok(bitcoin::hashes::Hash::from_slice(&hash_bytes('r', h)).unwrap()) }
+        fn hash160(&mut self, h: &String) -> Result<hash160::Hash, String> { Ok(bitcoin::hashes::Hash::from_slice(&hash_bytes('h', h)).unwrap()) }
+    }
+    let ks = |v: &[usize]| -> Vec<String> { v.iter().map(|i| format!("K{}", i)).collect() };
+    let pk = |i: usize| T::Check(Box::new(T::PkK(format!("K{}", i))));
+    // (descriptor, key indices of each single script)
+    let models: Vec<(D, Vec<Vec<usize>>)> = vec![
+        (D::Wsh(T::Multi(2, ks(&[1, 2, 3]))), vec![vec![1, 2, 3]]),
+        (D::ShWsh(T::SortedMulti(2, ks(&[1, 2, 3]))), vec![vec![1, 2, 3]]),
+        (D::Sh(T::Multi(1, ks(&[1, 2, 3]))), vec![vec![1, 2, 3]]),
+        (D::Bare(T::Multi(1, ks(&[1, 2, 3]))), vec![vec![1, 2, 3]]),
+        (D::Wsh(T::AndV(Box::new(T::Verify(Box::new(pk(1)))), Box::new(T::OrD(Box::new(pk(2)), Box::new(pk(3)))))), vec![vec![1, 2, 3]]),
+        (D::Tr("K0".into(), vec![(0, T::MultiA(2, ks(&[1, 2, 3])))]), vec![vec![1, 2, 3]]),
+        (D::Tr("K0".into(), vec![(1, pk(1)), (1, T::AndV(Box::new(T::Verify(Box::new(pk(2)))), Box::new(pk(3))))]), vec![vec![1], vec![2, 3]]),
+    ];
+    for (d, scripts) in &models {
+        let real = match build_desc::<String>(d, &StrEnv) {
+            Ok(r) => r,
+            Err(_) => continue,
+        };
+        for code in 0..81usize {
+            // lengths 1..3 for keys 0..3
+            let lens = [1 + code % 3, 1 + (code / 3) % 3, 1 + (code / 9) % 3, 1 + (code / 27) % 3];
+            let mismatch = scripts.iter().any(|pos| {
+                let ls: std::collections::BTreeSet<usize> = pos.iter().map(|i| lens[*i % 4]).filter(|l| *l > 1).collect();
+                ls.len() > 1
+            });
+            bump(cen, "multipath_translations");
+            let r = guard(|| real.translate_pk(&mut ToMp { xpubs: &xpubs, lens }));
+            let bad = match (&r, mismatch) {
+                (Ok(Ok(_)), true) => Some("accepted although one script mixes path tuples of different lengths".to_string()),
+                (Ok(Err(e)), false) => Some(format!("refused although every script's path tuples agree: {:?}", e)),
+                (Err(p), _) => Some(format!("panicked: {}", p)),
+                _ => None,
+            };
+            if let Some(b) = bad {
+                rep.violation(Violation {
+                    key: format!("C20|multipath-translation|{}|{:?}", d.sexpr(), lens),
+                    class: "translate-into-multipath-keys".into(),
+                    what: format!("translation of {} into keys with path-tuple lengths {:?} is {}", real, lens, b),
+                    case: json!({"model": d.sexpr(), "lengths": format!("{:?}", lens)}),
+                });
+            }
+        }
+    }
+}
+
 fn desc_and_policy_checks(rep: &Report, cen: &mut Census) {
+    multipath_translation(rep, cen);
     // descriptors: family of C19 (all wrappings, tap trees)
     for d in crate::c19b::desc_family() {
         let real = match build_desc::<String>(&d, &StrEnv) {
